@@ -1,6 +1,8 @@
 // L9: route pairs (C15, mechanism 1): two functions under contract whose postconditions determine the result
-// return bit-identical values. Each lemma takes the two results as given by the functions' own `ensures`
-// (call_ensures) and concludes equality by injectivity of the limb-sequence value (lemma_val_inj).
+// return bit-identical values. Each lemma receives the two results exactly as the functions' own `ensures`
+// describe them (`call_ensures(f, args, r)`), so it is re-proved from the *current* contracts on every run:
+// if a change weakens or breaks either function's contract, the pair lemma (or the function) fails.
+// Equality of values gives equality of all limbs by injectivity of the limb-sequence value (lemma_val_inj).
 use vstd::prelude::*;
 use crate::speclib::*;
 use crate::l0_prim::*;
@@ -8,6 +10,11 @@ use crate::l1_choice::*;
 use crate::l1_limb::*;
 use crate::l2_core::*;
 use crate::l2_shift::*;
+use crate::l3_divlimb::*;
+use crate::l3_div_ct::*;
+use crate::l3_div_vt::*;
+use crate::l3_mul::*;
+use crate::l4_sqrt::*;
 verus! {
 
 pub proof fn lemma_uint_eq_of_v<const L: usize>(a: Uint<L>, b: Uint<L>)
@@ -19,12 +26,130 @@ pub proof fn lemma_uint_eq_of_v<const L: usize>(a: Uint<L>, b: Uint<L>)
     assert(a.limbs =~= b.limbs);
 }
 
-pub proof fn route_shl_ct_vs_vartime<const L: usize>(x: Uint<L>, s: u32, r1: Uint<L>, r2: Uint<L>)
-    requires 1 <= L < 0x400_0000, (s as int) < 64 * L,
-        call_ensures(Uint::<L>::shl, (&x, s), r1),
-        call_ensures(Uint::<L>::shl_vartime, (&x, s), r2),
+pub open spec fn wfl(n: usize) -> bool { 1 <= n < 0x400_0000 }
+
+// ---------------------------------------------------------------- shifts: constant-time vs vartime
+pub proof fn route_shl<const L: usize>(x: Uint<L>, s: u32, r1: Uint<L>, r2: Uint<L>)
+    requires wfl(L), (s as int) < 64 * L,
+        call_ensures(Uint::<L>::shl, (&x, s), r1), call_ensures(Uint::<L>::shl_vartime, (&x, s), r2),
+    ensures r1 == r2
+{ lemma_uint_eq_of_v(r1, r2); }
+
+pub proof fn route_shr<const L: usize>(x: Uint<L>, s: u32, r1: Uint<L>, r2: Uint<L>)
+    requires wfl(L), (s as int) < 64 * L,
+        call_ensures(Uint::<L>::shr, (&x, s), r1), call_ensures(Uint::<L>::shr_vartime, (&x, s), r2),
+    ensures r1 == r2
+{ lemma_uint_eq_of_v(r1, r2); }
+
+pub proof fn route_overflowing_shl<const L: usize>(x: Uint<L>, s: u32, r1: ConstCtOption<Uint<L>>, r2: ConstCtOption<Uint<L>>)
+    requires wfl(L),
+        call_ensures(Uint::<L>::overflowing_shl, (&x, s), r1), call_ensures(Uint::<L>::overflowing_shl_vartime, (&x, s), r2),
+    ensures r1.is_some == r2.is_some, r1.value == r2.value
+{ lemma_uint_eq_of_v(r1.value, r2.value); }
+
+pub proof fn route_overflowing_shr<const L: usize>(x: Uint<L>, s: u32, r1: ConstCtOption<Uint<L>>, r2: ConstCtOption<Uint<L>>)
+    requires wfl(L),
+        call_ensures(Uint::<L>::overflowing_shr, (&x, s), r1), call_ensures(Uint::<L>::overflowing_shr_vartime, (&x, s), r2),
+    ensures r1.is_some == r2.is_some, r1.value == r2.value
+{ lemma_uint_eq_of_v(r1.value, r2.value); }
+
+pub proof fn route_wrapping_shl<const L: usize>(x: Uint<L>, s: u32, r1: Uint<L>, r2: Uint<L>)
+    requires wfl(L),
+        call_ensures(Uint::<L>::wrapping_shl, (&x, s), r1), call_ensures(Uint::<L>::wrapping_shl_vartime, (&x, s), r2),
+    ensures r1 == r2
+{ lemma_uint_eq_of_v(r1, r2); }
+
+pub proof fn route_wrapping_shr<const L: usize>(x: Uint<L>, s: u32, r1: Uint<L>, r2: Uint<L>)
+    requires wfl(L),
+        call_ensures(Uint::<L>::wrapping_shr, (&x, s), r1), call_ensures(Uint::<L>::wrapping_shr_vartime, (&x, s), r2),
+    ensures r1 == r2
+{ lemma_uint_eq_of_v(r1, r2); }
+
+// ---------------------------------------------------------------- bit queries: constant-time vs vartime
+pub proof fn route_bits<const L: usize>(x: Uint<L>, r1: u32, r2: u32)
+    requires wfl(L), call_ensures(Uint::<L>::bits, (&x,), r1), call_ensures(Uint::<L>::bits_vartime, (&x,), r2),
     ensures r1 == r2
 {
+    // both satisfy: v < 2^r and (r > 0 ==> v >= 2^(r-1)); the bit length is unique
+    if r1 < r2 { vstd::arithmetic::power2::lemma_pow2_strictly_increases(r1 as nat, r2 as nat);
+                 if r1 as nat <= (r2 - 1) as nat && (r1 as nat) < (r2 - 1) as nat { vstd::arithmetic::power2::lemma_pow2_strictly_increases(r1 as nat, (r2 - 1) as nat); } }
+    if r2 < r1 { vstd::arithmetic::power2::lemma_pow2_strictly_increases(r2 as nat, r1 as nat);
+                 if (r2 as nat) < (r1 - 1) as nat { vstd::arithmetic::power2::lemma_pow2_strictly_increases(r2 as nat, (r1 - 1) as nat); } }
+}
+
+pub proof fn route_leading_zeros<const L: usize>(x: Uint<L>, r1: u32, r2: u32)
+    requires wfl(L), call_ensures(Uint::<L>::leading_zeros, (&x,), r1), call_ensures(Uint::<L>::leading_zeros_vartime, (&x,), r2),
+    ensures r1 == r2
+{
+    let b1 = (64 * L - r1) as nat; let b2 = (64 * L - r2) as nat;
+    if b1 < b2 { vstd::arithmetic::power2::lemma_pow2_strictly_increases(b1, b2);
+                 if b1 < (b2 - 1) as nat { vstd::arithmetic::power2::lemma_pow2_strictly_increases(b1, (b2 - 1) as nat); } }
+    if b2 < b1 { vstd::arithmetic::power2::lemma_pow2_strictly_increases(b2, b1);
+                 if b2 < (b1 - 1) as nat { vstd::arithmetic::power2::lemma_pow2_strictly_increases(b2, (b1 - 1) as nat); } }
+}
+
+pub proof fn route_bit<const L: usize>(x: Uint<L>, i: u32, r1: ConstChoice, r2: bool)
+    requires wfl(L), call_ensures(Uint::<L>::bit, (&x, i), r1), call_ensures(Uint::<L>::bit_vartime, (&x, i), r2),
+    ensures r1.wf(), r1.t() == r2
+{ }
+
+pub proof fn route_cmp<const L: usize>(a: Uint<L>, b: Uint<L>, r1: i8, r2: core::cmp::Ordering)
+    requires L >= 1, call_ensures(Uint::<L>::cmp, (&a, &b), r1), call_ensures(Uint::<L>::cmp_vartime, (&a, &b), r2),
+    ensures (r1 == -1) == (r2 == core::cmp::Ordering::Less), (r1 == 0) == (r2 == core::cmp::Ordering::Equal), (r1 == 1) == (r2 == core::cmp::Ordering::Greater)
+{ }
+
+// ---------------------------------------------------------------- division: constant-time vs vartime, precomputed vs one-shot reciprocal
+pub proof fn route_div_rem<const L: usize>(n: Uint<L>, d: NonZero<Uint<L>>, r1: (Uint<L>, Uint<L>), r2: (Uint<L>, Uint<L>))
+    requires wfl(L), d.0.v() != 0,
+        call_ensures(Uint::<L>::div_rem, (&n, &d), r1), call_ensures(Uint::<L>::div_rem_vartime::<L>, (&n, &d), r2),
+    ensures r1 == r2
+{ lemma_uint_eq_of_v(r1.0, r2.0); lemma_uint_eq_of_v(r1.1, r2.1); }
+
+pub proof fn route_rem<const L: usize>(n: Uint<L>, d: NonZero<Uint<L>>, r1: Uint<L>, r2: Uint<L>)
+    requires wfl(L), d.0.v() != 0,
+        call_ensures(Uint::<L>::rem, (&n, &d), r1), call_ensures(Uint::<L>::rem_vartime, (&n, &d), r2),
+    ensures r1 == r2
+{ lemma_uint_eq_of_v(r1, r2); }
+
+pub proof fn route_wrapping_div<const L: usize>(n: Uint<L>, d: NonZero<Uint<L>>, r1: Uint<L>, r2: Uint<L>)
+    requires wfl(L), d.0.v() != 0,
+        call_ensures(Uint::<L>::wrapping_div, (&n, &d), r1), call_ensures(Uint::<L>::wrapping_div_vartime::<L>, (&n, &d), r2),
+    ensures r1 == r2
+{ lemma_uint_eq_of_v(r1, r2); }
+
+pub proof fn route_div_rem_limb_reciprocal<const L: usize>(n: Uint<L>, d: NonZero<Limb>, rec: Reciprocal, r1: (Uint<L>, Limb), r2: (Uint<L>, Limb))
+    requires L >= 1, d.0.0 != 0, call_ensures(Reciprocal::new, (d,), rec),
+        call_ensures(Uint::<L>::div_rem_limb, (&n, d), r1), call_ensures(Uint::<L>::div_rem_limb_with_reciprocal, (&n, &rec), r2),
+    ensures r1 == r2
+{
+    let dv = d.0.0 as int;
+    vstd::arithmetic::div_mod::lemma_fundamental_div_mod_converse(n.v(), dv, r1.0.v(), r1.1.0 as int);
+    vstd::arithmetic::div_mod::lemma_fundamental_div_mod_converse(n.v(), dv, r2.0.v(), r2.1.0 as int);
+    lemma_uint_eq_of_v(r1.0, r2.0);
+}
+
+pub proof fn route_rem_limb_reciprocal<const L: usize>(n: Uint<L>, d: NonZero<Limb>, rec: Reciprocal, r1: Limb, r2: Limb)
+    requires L >= 1, d.0.0 != 0, call_ensures(Reciprocal::new, (d,), rec),
+        call_ensures(Uint::<L>::rem_limb, (&n, d), r1), call_ensures(Uint::<L>::rem_limb_with_reciprocal, (&n, &rec), r2),
+    ensures r1 == r2
+{ }
+
+// ---------------------------------------------------------------- squaring equals self-multiplication
+pub proof fn route_square_vs_mul<const L: usize>(x: Uint<L>, r1: (Uint<L>, Uint<L>), r2: (Uint<L>, Uint<L>))
+    requires L >= 1, 2 * L <= usize::MAX,
+        call_ensures(Uint::<L>::square_wide, (&x,), r1), call_ensures(Uint::<L>::split_mul::<L>, (&x, &x), r2),
+    ensures r1 == r2
+{ lemma_uint_eq_of_v(r1.0, r2.0); lemma_uint_eq_of_v(r1.1, r2.1); }
+
+// ---------------------------------------------------------------- square root: constant-time vs vartime
+pub proof fn route_sqrt<const L: usize>(x: Uint<L>, r1: Uint<L>, r2: Uint<L>)
+    requires wfl(L), call_ensures(Uint::<L>::sqrt, (&x,), r1), call_ensures(Uint::<L>::sqrt_vartime, (&x,), r2),
+    ensures r1 == r2
+{
+    let (a, b, n) = (r1.v(), r2.v(), x.v());
+    lemma_val_bound(r1.limbs@, L as nat); lemma_val_bound(r2.limbs@, L as nat);
+    assert(a == b) by (nonlinear_arith)
+        requires 0 <= a, 0 <= b, a * a <= n, n < (a + 1) * (a + 1), b * b <= n, n < (b + 1) * (b + 1);
     lemma_uint_eq_of_v(r1, r2);
 }
 
